@@ -84,6 +84,11 @@ def cache_machine(stats, clauses, nontrivial, accepted_only):
         def odd_address(self, a, w, v, rw):
             self._send(["r", w, a, True] if rw else ["w", w, a, v & ((1 << (8 * w)) - 1)])
 
+        @precondition(lambda self: self.case is not None and self.gen is not None)
+        @rule(tag=st.integers(0, 9), seti=st.integers(0, 2))
+        def inspect(self, tag, seti):
+            self._send(["i", 4, self._addr(tag, seti, 0, 0) & ~3])
+
         @precondition(lambda self: self.case is not None and self.gen is not None and len(self.case["ops"]) >= 3)
         @rule()
         def reset(self):
